@@ -52,7 +52,8 @@ def result_body(r, kind, req_node):
     if kind == "privacy-get":
         return fx["iq_privacy_result"][2]
     if kind == "groups-list":
-        return fx["iq_result_groups_list"][2]
+        # (the library's own sample, or a generated list of 0..4 groups: an account without groups gets an empty container)
+        return fx["iq_result_groups_list"][2] if r.random() < 0.3 else hand("groups_list_result")
     if kind == "groups-create":
         return fx["iq_groups_create_success"][2]
     if kind == "groups-info":
